@@ -4,7 +4,7 @@ from common import *
 import senderlib, sendercheck
 
 def main():
-    fams = sorted({(f, d) for plan in sendercheck.PLANS.values() for (f, d, _, _) in plan if d <= 5} | {("S7", 0), ("S7b", 0), ("S6", 0), ("S6b", 0), ("S8", 0)})
+    fams = sorted({(f, d) for plan in sendercheck.PLANS.values() for (f, d, _, _) in plan if d <= 5} | {("S7", 0), ("S7b", 0), ("S6", 0), ("S6b", 0), ("S8", 0), ("S3c", 0)})
     ctx = Ctx("WARM", "quick", 1)
     import recvlib
     with cf.ThreadPoolExecutor(max_workers=4) as ex:
